@@ -57,7 +57,13 @@ def main():
         "checks": checks,
         "not_applicable": na,
         "notes": "Technique family: static analysis only. Every check re-exports facts from /repo's current working tree "
-                 "(cache keyed by a hash of src/, Cargo.toml, Cargo.lock) and never runs textwrap code. Exit 2 = broken check.",
+                 "(cache keyed by a hash of src/, Cargo.toml, Cargo.lock) and never runs textwrap code. Exit 2 = broken check. "
+                 "The quick tier analyses the default and no-default-features configurations; the thorough tier analyses all seven "
+                 "feature configurations (each default feature alone, all features, --cfg fuzzing) and then runs the sensitivity "
+                 "self-test of the check (twlint/selftest.py): every mutant of mutants/corpus.py that names the property is applied "
+                 "to a scratch copy of the tree under analysis and must be reported by the same rules; the result is recorded under "
+                 "coverage.sensitivity_selftest in the evidence file and never changes the exit code (it is evidence about the "
+                 "checker, not about the property).",
     }
     with open(os.path.join(VERIF, "MANIFEST.json"), "w") as fh:
         json.dump(man, fh, indent=1)
